@@ -36,7 +36,7 @@ Lemma safe_xls_lbl : forall data, safe (xls_lbl data) (fun _ => True).
 Proof.
   intros data. unfold xls_lbl. destruct (length data <? 14)%nat eqn:E; [exact I|]. apply Nat.ltb_ge in E.
   reads. destruct (length data <? 14 + N.to_nat v0)%nat eqn:E2; [exact I|]. reads.
-  eapply safe_bind; [apply safe_parse_defined_names|]. intros f _. exact I.
+  cbv zeta. eapply safe_bind; [apply safe_parse_defined_names|]. intros f _. exact I.
 Qed.
 
 Lemma safe_xti_chunks : forall fuel cxti rest, safe (xti_chunks fuel cxti rest) (fun _ => True).
@@ -62,10 +62,23 @@ Proof.
   apply IH.
 Qed.
 
-Theorem no_panic_xls_read_names : forall sheets recs, xls_read_names sheets recs <> Panic.
+Lemma safe_map_o : forall (A B : Type) (f : A -> outcome B) l,
+  (forall x, safe (f x) (fun _ => True)) -> safe (map_o f l) (fun _ => True).
 Proof.
-  intros sheets recs. apply (@safe_not_panic _ _ (fun _ => True)). unfold xls_read_names.
-  eapply safe_bind; [apply safe_xls_globals|]. intros g _. exact I.
+  intros A B f l Hf. induction l as [|x t IH]; [exact I|]. cbn [map_o].
+  eapply safe_bind; [apply Hf|]. intros y _. eapply safe_bind; [exact IH|]. intros r _. exact I.
+Qed.
+
+Theorem no_panic_xls_read_names : forall show_f64 sheets recs, xls_read_names show_f64 sheets recs <> Panic.
+Proof.
+  intros show_f64 sheets recs. apply (@safe_not_panic _ _ (fun _ => True)). unfold xls_read_names.
+  eapply safe_bind; [apply safe_xls_globals|]. intros g _.
+  eapply safe_bind; [|intros l _; exact I].
+  apply safe_map_o. intros n. unfold xls_final_name.
+  pose proof (no_panic_parse_formula_xls show_f64
+                {| xe_sheets := sheets; xe_names := map fst (fst g); xe_xtis := snd g |}
+                (frame_xls (snd (snd n)))) as Hp.
+  destruct (xls_parse_formula show_f64 _ _); cbn [safe]; auto.
 Qed.
 
 (* ------------------------------------------------------------------ xlsb *)
